@@ -242,6 +242,27 @@ def _literal_elts(itsym, depth=0):
     return None
 
 
+_STR_RESULT_METHODS = {'strip', 'lstrip', 'rstrip', 'lower', 'upper', 'replace', 'format', 'join', 'split', 'rsplit', 'splitlines', 'partition',
+                       'rpartition', 'capitalize', 'title', 'startswith', 'endswith', 'encode', 'decode', 'zfill', 'ljust', 'rjust', 'center',
+                       'isdigit', 'isalpha', 'find', 'rfind', 'count', 'keys', 'values', 'items', 'copy', 'readline', 'readlines', 'read'}
+_NEVER_NONE_FUNCS = {'str', 'int', 'float', 'len', 'list', 'tuple', 'dict', 'set', 'bool', 'repr', 'sorted', 'reversed', 'enumerate', 'range', 'abs',
+                     'min', 'max', 'sum', 'hex', 'chr', 'ord', 'isinstance', 'hasattr', 'format', 'frozenset', 'zip', 'map', 'filter', 'divmod'}
+
+
+def _never_none(sym):
+    """terms whose value cannot be None: results of str / container methods and of value-building builtins, displays, arithmetic"""
+    if isinstance(sym, (ast.List, ast.Tuple, ast.Dict, ast.Set, ast.ListComp, ast.DictComp, ast.SetComp, ast.GeneratorExp, ast.JoinedStr, ast.BinOp, ast.Compare)):
+        return True
+    if isinstance(sym, ast.Constant):
+        return sym.value is not None
+    if isinstance(sym, ast.Call):
+        if isinstance(sym.func, ast.Attribute) and sym.func.attr in _STR_RESULT_METHODS:
+            return True
+        if isinstance(sym.func, ast.Name) and sym.func.id in _NEVER_NONE_FUNCS:
+            return True
+    return False
+
+
 def _enumerate_parts(itsym):
     """(iterable, start) when itsym is enumerate(X), enumerate(X, c) or enumerate(X, start=c) with a constant c"""
     if isinstance(itsym, ast.Call) and isinstance(itsym.func, ast.Name) and itsym.func.id == 'enumerate' and 1 <= len(itsym.args) <= 2:
@@ -686,6 +707,10 @@ class PathSim:
         gt = self._generator_target(stmt.iter, frame) if self.auto_inline else None
         if gt is not None:
             return self.exec_for_generator(stmt, gt[0], gt[1], st, frame)
+        it = stmt.iter
+        if isinstance(it, ast.Call) and isinstance(it.func, ast.Name) and it.func.id == 'iter' and len(it.args) == 2 and not it.keywords \
+                and isinstance(it.args[0], ast.Lambda) and not it.args[0].args.args:
+            return self._exec_for_sentinel(stmt, it.args[0].body, it.args[1], st, frame)
         for itsym, s0, sig in self.ev(stmt.iter, st, frame):
             if sig is not None:
                 out.append((s0, sig))
@@ -737,6 +762,47 @@ class PathSim:
                             out.append((s3, sig3))
                 if len(out) + len(pending) > self.max_paths:
                     raise AnalysisError('path explosion in %s' % self.func.qual)
+        return out
+
+    def _exec_for_sentinel(self, stmt, producer, sentinel, st, frame):
+        """for x in iter(lambda: PRODUCER, SENTINEL): each round evaluates PRODUCER; the loop ends when the value equals SENTINEL"""
+        f = frame[0]
+        out = []
+        base_loops = st.loops
+        pending = [(st, 0)]
+        while pending:
+            s, k = pending.pop()
+            for val, s1, sig in self.ev(producer, s, frame):
+                if sig is not None:
+                    out.append((s1, sig))
+                    continue
+                for sv, s2, sig2 in self.ev(sentinel, s1, frame):
+                    if sig2 is not None:
+                        out.append((s2, sig2))
+                        continue
+                    for ended, s3, sig3 in self._atom_compare(stmt.iter, ast.Eq(), val, sv, s2, frame):
+                        if sig3 is not None:
+                            out.append((s3, sig3))
+                        elif ended:
+                            s3.loops = base_loops
+                            s3.events.append(Event('loop-exit', stmt, f, text='for-exit', extra=k, ep=s3.ep, loops=base_loops))
+                            out.extend(self.exec_block(stmt.orelse, s3, frame))
+                        elif k < self.unroll:
+                            s3.loops = base_loops + ((id(stmt), k),)
+                            s3.events.append(Event('loop-iter', stmt, f, text='for-iter', extra=k, value=val, ep=s3.ep, loops=s3.loops))
+                            for s4, sg in self.assign(stmt.target, val, s3, frame, stmt, quiet=True):
+                                for s5, sig5 in self.exec_block(stmt.body, s4, frame):
+                                    if sig5 is None or sig5 == 'continue':
+                                        pending.append((s5, k + 1))
+                                    elif sig5 == 'break':
+                                        s5.loops = base_loops
+                                        s5.events.append(Event('loop-break', stmt, f, text='for-break', extra=k, ep=s5.ep, loops=base_loops))
+                                        out.append((s5, None))
+                                    else:
+                                        s5.loops = base_loops
+                                        out.append((s5, sig5))
+            if len(out) + len(pending) > self.max_paths:
+                raise AnalysisError('path explosion in %s' % self.func.qual)
         return out
 
     def exec_try(self, stmt, st, frame):
@@ -1552,6 +1618,8 @@ class PathSim:
             if norm(r) < norm(l):
                 l, r = r, l
             # x == True / x == False on a truthy atom stay as they are
+        if isinstance(op, ast.Is) and isinstance(r, ast.Constant) and r.value is None and _never_none(l):
+            return [(neg, st, None)]        # the result of str.strip(), str(), a display ... is never None
         sym = ast.Compare(left=l, ops=[op], comparators=[r])
         res = self._decide(sym, node, st, frame)
         if neg:
